@@ -8,6 +8,8 @@ pub mod archive_world;
 pub mod crash_world;
 pub mod crypto_world;
 pub mod eventlog_world;
+pub mod gen;
+pub mod leak_world;
 pub mod server_world;
 pub mod summary;
 pub mod sync_world;
